@@ -106,7 +106,7 @@ PersFor(c, stale, st, f) ==
 StyleCover == { <<s, "same", FALSE>> : s \in StaleStyles }
               \cup { <<"older", s, FALSE>> : s \in FreshStyles \ {"same"} }
               \cup { <<"two", "mid", TRUE>> }
-StyleQuick == { <<"absent", "same", FALSE>>, <<"older", "last", FALSE>>, <<"look", "dup", TRUE>> }
+StyleQuick == { <<"absent", "first", FALSE>>, <<"older", "last", FALSE>>, <<"look", "dup", TRUE>> }
 StyleOne   == { <<"older", "last", FALSE>> }
 
 (* bump sets *)
@@ -168,11 +168,13 @@ PlanQuick == { DirectPlan(Engines1Q, "all", StyleQuick, {3}, {T2}),
                DirectPlan(Engines2, "byalg", StyleQuick, {2}, {T2}),
                DirectPlan(Engines2, "byalg", StyleOne, {1}, {T0}),
                DirectPlan(Engines3Q, "same", StyleOne, {1}, {T2}) }
-PlanT1 == { DirectPlan(Engines1, "all", StyleCover, {1, 2, 3}, {T0, T1, T2}) }
-PlanT2 == { DirectPlan(Engines2, "byalg", StyleCover, {1, 2, 3}, {T0, T1, T2}) }
-PlanT3 == { DirectPlan(Engines3, "byalg", StyleQuick, {2}, {T0, T2}) }
-PlanH1 == { HistPlan(EnginesH1, "all", {3}, {T0, T2}) }
-PlanH2 == { HistPlan(EnginesH2, "byalg", {2}, {T2}) }
+PlanT1 == { DirectPlan(Engines1, "all", StyleCover, {3}, {T0, T1, T2}),
+            DirectPlan(Engines1, "all", StyleQuick, {1, 2}, {T2}) }
+PlanT2 == { DirectPlan(Engines2, "byalg", StyleCover, {2}, {T0, T1, T2}) }
+PlanT3 == { DirectPlan(Engines3, "byalg", StyleQuick, {1}, {T2}),
+            DirectPlan(Engines3, "same", StyleOne, {2}, {T0}) }
+PlanH1 == { HistPlan(EnginesH1, "all", {3}, {T2}) }
+PlanH2 == { HistPlan(EnginesH2, "same", {2}, {T2}) }
 PlanTiny == { DirectPlan({ MkEngine("pkgs", <<"task">>, << <<1>> >>, {}) }, "all", StyleOne, {3}, {T2}) }
 
 CasesFor(p, e) ==
